@@ -349,6 +349,21 @@ def point_like(P, R):
         diff = [k for k in res[pf.qualname] if res[pf.qualname][k] != res[af.qualname].get(k)]
         R.check(not diff, 'C01.c', af, None, 'Point and PointArray forms agree on every ordering', f'Point and PointArray forms disagree on {len(diff)} orderings, e.g. {diff[:2]}',
                 construct='Point vs PointArray')
+    # C01.l: the scalar form compares in double precision like the array form (whose x/y are NaN-filled float64 arrays): a float32
+    # numpy scalar compared with a Python number demotes the number to float32 (NumPy >= 2), so 16777217 becomes 16777216
+    ncmp = 0
+    for c in [n for n in walk_own(pf.node) if isinstance(n, ast.Compare)]:
+        for side in [c.left] + list(c.comparators):
+            e = astq.expand(pf, side)
+            raw = [a for a in ast.walk(e) if isinstance(a, ast.Attribute) and isinstance(a.value, ast.Name) and a.value.id == 'self' and a.attr in ('x', 'y')]
+            if not raw:
+                continue
+            ncmp += 1
+            wrapped = all(any(isinstance(w, ast.Call) and norm(w.func) in ('float', 'np.float64', 'numpy.float64') and any(x is a for x in ast.walk(w)) for w in ast.walk(e)) for a in raw)
+            R.check(wrapped, 'C01.l', pf, c, 'the scalar point coordinate is widened to double precision before it is compared with the box (as in the array form)',
+                    f'`{norm(c)}` compares the raw numpy scalar `{norm(raw[0])}` with the caller\'s box corner: for a float32 point a Python-number corner is demoted to float32, '
+                    'so the scalar form answers differently from the array form near 2^24', construct=f'double-precision compare {norm(side)}')
+    R.floor('C01.l', 'coordinate comparisons in Point.intersects_bounds', ncmp, 2)
     # inds handling of the array form
     okinds = any(isinstance(s, ast.If) and 'inds is not None' in norm(s.test) and all(any(norm(x.targets[0]) == v and norm(x.value) == f'{v}[inds]' for x in s.body if isinstance(x, ast.Assign)) for v in _xy_names(af))
                  for s in af.node.body)
